@@ -62,7 +62,7 @@ def check_calls(case, obs):
         calls = [("c12_check", [g0[0], mc.wire_target(case["tg"]), g0[1], [g[1] for g in mc.run_graphs(obs)]])]
         o2 = mc.second_obs(obs)
         if o2 is not None:
-            calls.append(("c12_check", [g0[0], mc.wire_target(case["tg"]), o2["input"][1],
+            calls.append(("c12_check", [o2["input"][0], mc.wire_target(case["tg"]), o2["input"][1],
                                         [g[1] for g in mc.run_graphs(o2)]]))
         return calls
     calls = [("c12_check_swap", mc.swap_tree(case, q, it) + [mc.wire_target(case["tg"])])
